@@ -695,6 +695,7 @@ type watchRec struct {
 	kind   string // get, prefix, root, ins
 	key    string
 	txnSeq int // which txn (for origin -1)
+	after  int // for a channel handed out by a transaction AFTER its own writes: length of the touch log then
 }
 
 type partIter struct {
@@ -713,6 +714,7 @@ type partExec struct {
 	ref       []map[string]int
 	parent    []int
 	dirtyD    []bool // some txn in a descendant of this version has been notified
+	touchLog  []string // keys changed by the open transaction, in order
 	txn       *part.Txn[int]
 	txnRef    map[string]int
 	txnBase   int
@@ -822,7 +824,7 @@ func (e *partExec) watch(o *Out, ch <-chan struct{}, origin int, kind, key strin
 		if mustBeOpen && isClosed(ch) {
 			o.Fail("C12", "closed-when-handed-out", map[string]string{"query": kind}, fmt.Sprintf("channel %s for %s(%s) closed when handed out", n, kind, hx([]byte(key))))
 		}
-		e.recs = append(e.recs, watchRec{ch: ch, name: n, origin: origin, kind: kind, key: key, txnSeq: e.txnSeq})
+		e.recs = append(e.recs, watchRec{ch: ch, name: n, origin: origin, kind: kind, key: key, txnSeq: e.txnSeq, after: len(e.touchLog)})
 	}
 	return n
 }
@@ -891,6 +893,22 @@ func (e *partExec) notifyOracle(o *Out, base int, seq int, touched map[string]bo
 			o.Fail("C12", "root-closed-without-change", nil, fmt.Sprintf("root watch %s of v%d closed by a txn that changed nothing", w.name, base))
 		}
 	}
+	// a Prefix channel handed out by the transaction itself after it had written (Txn.Prefix freezes
+	// what was built so far): closed if the transaction LATER changed a key under the prefix
+	if seq == e.txnSeq && !e.rootOnly {
+		for _, w := range e.recs {
+			if w.origin != -1000000 || w.txnSeq != seq || w.kind != "prefix" || w.after > len(e.touchLog) {
+				continue
+			}
+			for _, k := range e.touchLog[w.after:] {
+				if strings.HasPrefix(k, w.key) && !isClosed(w.ch) {
+					o.Fail("C12", "missed-close", map[string]string{"query": "prefix-inside-the-transaction", "rootonly": "false"},
+						fmt.Sprintf("channel %s from Txn.Prefix(%s), handed out by the transaction after earlier writes, is still open after Notify although the transaction went on to change %s", w.name, hx([]byte(w.key)), hx([]byte(k))))
+					break
+				}
+			}
+		}
+	}
 	for v := base; v >= 0; v = e.parent[v] {
 		if len(touched) > 0 {
 			e.dirtyD[v] = true
@@ -928,6 +946,7 @@ func (e *partExec) do(o *Out, f []string) string {
 		}
 		e.txnBase, e.txnMut, e.txnDone = v, false, false
 		e.touched = map[string]bool{}
+		e.touchLog = nil
 		e.txnSeq++
 		return "ok"
 	case "ins", "mod":
@@ -959,6 +978,7 @@ func (e *partExec) do(o *Out, f []string) string {
 		e.txnRef[string(k)] = nv
 		e.txnMut = true
 		e.touched[string(k)] = true
+		e.touchLog = append(e.touchLog, string(k))
 		// InsertWatch channel: "closes when that key is next changed" by a txn on the version this txn commits to
 		n := e.name(w)
 		if w != nil {
@@ -982,6 +1002,7 @@ func (e *partExec) do(o *Out, f []string) string {
 			delete(e.txnRef, string(k))
 			e.txnMut = true
 			e.touched[string(k)] = true
+			e.touchLog = append(e.touchLog, string(k))
 		}
 		return optInt(old, hadOld)
 	case "get":
